@@ -145,6 +145,9 @@ def prt3(ctx: Ctx):
     r = analyze(model, fi)
     ctx.functions.add(fi.qual)
     n = 0
+    # the variable holding the port text: what int() is applied to
+    text_vars = {e.node.args[0].id for e in r.by_kind("call") if e.func == ("builtin", "int") and e.node.args
+                 and isinstance(e.node.args[0], ast.Name)}
     for s, v, node in r.returns:
         if v[0] != "tuple" or len(v[1]) != 4:
             raise AnalysisError("_parse.split_netloc: return value is not a 4-tuple")
@@ -152,7 +155,10 @@ def prt3(ctx: Ctx):
         ctx.instance(rule)
         if port == NONE:
             # no port written: only when the text after the host delimiter is empty
-            ok = any(fv is False and k[0] in ("item", "sub", "call") for k, fv in s.facts.items())
+            if len(text_vars) == 1 and next(iter(text_vars)) in s.env:
+                ok = truth(s.env[next(iter(text_vars))], s.facts) is False
+            else:
+                ok = any(fv is False and k[0] in ("item", "sub", "call") for k, fv in s.facts.items())
             ctx.ob(rule, fi.qual, "return (..., None)", ok, "port reported absent without the port text being empty", where(fi, node),
                    sample="port text is empty")
             continue
